@@ -19,5 +19,5 @@ Extraction "oracle.ml"
   commutants anticommutation_graph commutator_graph anti_components commutator_components charges pair_count
   otoc_counts complexity_counts
   simplify ladd lscale lherm lmatmul lmatmul_alias_old ltrace ltrace_old lis_zero lis_zero_old leq denote size_of
-  decompose decompose_iter decompose_diag index dindex weight_in pauli_weights shape_ok diag_shape_ok
+  decompose decompose_iter decompose_diag decompose_diag_iter index dindex weight_in pauli_weights shape_ok diag_shape_ok
   full_basis twirl.
